@@ -15,6 +15,7 @@ broadcast use str_axioms::axiom_str_eq_is_view_eq;
 verus! {
 //@include units/spec_lookups.inc
 //@include units/spec_lines.inc
+//@include units/spec_enum.inc
 
 // =====================================================================================================
 // U6 — enum arms, ghost lines
@@ -66,12 +67,7 @@ verus! {
     requires
         !(ghost_data.ghost_ident matches GhostIdent::Member(Member::Unnamed(_))), // #enum-ghosts-name-a-variant [C16]
     ensures
-        r@ =~= (if k_is_from(ctx.kind) {
-            ctx.src_ty@ + p("::") + (match ghost_data.ghost_ident { GhostIdent::Member(m) => m.toks(), GhostIdent::Destruction(d) => d@ })
-            + p("=>") + spec_action(ghost_data.action@, nil(), *ctx) + p(",")
-        } else {
-            nil()
-        }), // #counterpart-only-variant-arm
+        r@ =~= spec_enum_ghost_arm(ghost_data, *ctx), // #counterpart-only-variant-arm
 //@end
 
 
@@ -90,106 +86,14 @@ fn variant_destruct_block(input: &Struct, ctx: &ImplContext) -> (r: TokenStream)
     ensures r@ == spec_variant_destruct(sview(*input), cview(*ctx)),
 { unimplemented!() }
 
-// the variant seen as a struct: same payload fields, its own #[ghosts], nothing else
-spec fn vsview(v: &Variant) -> SView {
-    SView {
-        attrs: AView { attrs: Seq::empty(), ghosts_attrs: v.attrs.ghosts_attrs@, where_attrs: Seq::empty(), child_parents_attrs: Seq::empty() },
-        ident: v.ident, fields: v.fields@, named_fields: v.named_fields, unit: v.unit,
-    }
-}
-// the conversion context inside the arm: bindings instead of value./self., counterpart form from #[type_hint]
-spec fn vcview<'a>(v: &Variant, ctx: ImplContext<'a>, hint: TypeHint) -> CView {
-    CView { input: Some(vsview(v)), impl_type: ImplType::Variant, sa: TraitAttrCore { type_hint: hint, ..*ctx.struct_attr }, ..cview(ctx) }
-}
-
-spec fn variant_hint(v: &Variant, ty: TypePath) -> TypeHint {
-    match spec_type_hint(&v.attrs, ty) { Some(h) => h.type_hint, None => TypeHint::Unspecified }
-}
-
-spec fn hint_maybe(h: TypeHint, m: TypeHint) -> bool { h == m || h is Unspecified }
-
-// left of `=>` when the variant itself is matched: its payload pattern
-spec fn arm_destr(empty_fields: bool, from: bool, hint: TypeHint, destruct: Toks) -> Toks {
-    if empty_fields && (!from || hint_maybe(hint, TypeHint::Unit)) {
-        nil()
-    } else if empty_fields && from && hint is Tuple {
-        paren(p(".."))
-    } else if empty_fields && from && hint is Struct {
-        brace(p(".."))
-    } else {
-        destruct
-    }
-}
-// payload constructor on the right of `=>`
-spec fn arm_init<'a>(a: Option<ApplicableAttr<'a>>, empty_fields: bool, hint: TypeHint, init: Toks) -> Toks {
-    if (a is Some && aa_action(a->0) is Some) || (empty_fields && hint_maybe(hint, TypeHint::Unit)) { nil() } else { init }
-}
-
-// which arm shapes exist (everything else is a todo!() in the code)
-spec fn arm_defined<'a>(a: Option<ApplicableAttr<'a>>, lit: bool, pat: bool, k: Kind) -> bool {
-    ||| (a is None && !lit && !pat)
-    ||| (a is Some && !lit && !pat && !k_is_into_existing(k))
-    ||| (a is None && lit && !pat && !k_is_into_existing(k))
-    ||| (a is None && !lit && pat && k_is_from(k))
-    ||| (a is Some && !lit && pat && k_is_into(k))
-}
-
-spec fn spec_enum_arm<'a>(v: &'a Variant, ctx: ImplContext<'a>, destruct: Toks, init0: Toks) -> Toks {
-    let ty = ctx.struct_attr.ty;
-    let a = spec_applicable(&v.attrs, ctx.kind, ctx.fallible, ty);
-    let lit = spec_lit(&v.attrs, ty);
-    let pat = spec_pat(&v.attrs, ty);
-    let hint = variant_hint(v, ty);
-    let empty = v.fields@.len() == 0;
-    let destr = arm_destr(empty, k_is_from(ctx.kind), hint, destruct);
-    let init = arm_init(a, empty, hint, init0);
-    let src_v = ctx.src_ty@ + p("::") + v.ident.toks();
-    let dst_v = ctx.dst_ty@ + p("::") + v.ident.toks();
-    if a is None && lit is None && pat is None {
-        // same-named variant on both sides
-        src_v + destr + p("=>") + dst_v + init + p(",")
-    } else if a is Some && lit is None && pat is None && k_is_from(ctx.kind) {
-        // the counterpart's (renamed) variant is matched; the result is this variant or the variant-level expression
-        let renamed = match aa_member(a->0) { Some(m) => m.toks(), None => match a->0 { ApplicableAttr::ParentChildField(pc, _) => pc.this_member.toks(), _ => v.ident.toks() } };
-        ctx.src_ty@ + p("::") + renamed + destr + p("=>")
-            + (if aa_action(a->0) is Some { spec_action(aa_action(a->0)->0@, v.ident.toks(), ctx) } else { dst_v + init })
-            + p(",")
-    } else if a is Some && lit is None && pat is None {
-        // this variant is matched; the result is the counterpart's (renamed) variant or the expression
-        let right = if a->0 is Ghost {
-            spec_action(aa_action(a->0)->0@, nil(), ctx)
-        } else {
-            let m = match stuff_member(a->0) { Some(m) => m.toks(), None => v.ident.toks() };
-            if aa_action(a->0) is Some { spec_action(aa_action(a->0)->0@, m + init, ctx) } else { ctx.dst_ty@ + p("::") + m + init }
-        };
-        src_v + destr + p("=>") + right + p(",")
-    } else if a is None && lit is Some && pat is None && k_is_from(ctx.kind) {
-        lit->0.tokens@ + p("=>") + dst_v + init + p(",")          // the value x converts to the variant
-    } else if a is None && lit is Some && pat is None {
-        src_v + destr + p("=>") + lit->0.tokens@ + p(",")         // the variant converts to the value x
-    } else if a is None && lit is None && pat is Some {
-        pat->0.tokens@ + p("=>") + dst_v + init + p(",")          // every value matching p converts to the variant
-    } else {
-        // pattern + Into: the variant converts to its Into expression
-        src_v + destr + p("=>") + spec_action(aa_action(a->0)->0@, nil(), ctx) + p(",")
-    }
-}
-
 //@fn expand.rs render_enum_line
 //@props C02,C09,C16
 //@attr #[verifier::rlimit(1000)]
 //@spec
     requires
-        arm_defined(spec_applicable(&v.attrs, ctx.kind, ctx.fallible, ctx.struct_attr.ty), spec_lit(&v.attrs, ctx.struct_attr.ty) is Some, spec_pat(&v.attrs, ctx.struct_attr.ty) is Some, ctx.kind), // #arm-shape-exists [C16]
-        // a ghost variant is rendered only when it has a default value; a pattern variant converts back through its Into expression
-        ({ let a = spec_applicable(&v.attrs, ctx.kind, ctx.fallible, ctx.struct_attr.ty);
-           &&& (a is Some && a->0 is Ghost) ==> (aa_action(a->0) is Some && !k_is_from(ctx.kind))
-           &&& (a is Some && spec_pat(&v.attrs, ctx.struct_attr.ty) is Some) ==> (aa_action(a->0) is Some && !(a->0 is Ghost)) }), // #ghost-and-pattern-variants-carry-an-expression [C16]
-        !(ctx.impl_type is Variant),
+        enum_line_pre(v, *ctx), // #arm-shape-exists-and-carries-what-it-needs [C16]
     ensures
-        r@ =~= spec_enum_arm(v, *ctx,
-            spec_variant_destruct(vsview(v), vcview(v, *ctx, variant_hint(v, ctx.struct_attr.ty))),
-            spec_struct_init(vsview(v), vcview(v, *ctx, variant_hint(v, ctx.struct_attr.ty)))), // #variant-arm
+        r@ =~= spec_variant_arm(v, *ctx), // #variant-arm
 //@closure 0
     |x: &VariantTypeHintAttr| -> (r: TypeHint) ensures r == x.type_hint
 //@closure 1
